@@ -131,6 +131,13 @@ CLAIMED = {
         "Images within 1e-12*(1+r) of the sphere surface (incl. exact coincidence at radius 0) are ties, excluded and counted; the brute-force box uses the plane-spacing bound with a margin of 2 cells.",
         "DESIGN.md 3/C11",
     ),
+    "C09": (
+        "exploration",
+        "product of atomic grids (2 radial grids incl. an r=0 node x uniform/mixed degrees x 4 methods x centre x rotation) x basis functions r^l h_k(r) Y_lm for all l <= min degree/2 and 3 radial shapes (linearity makes the basis decide the span) x structured evaluation points, against the independent harmonic oracle and 6th-order differences of the same interpolant; explicit-state exploration of all call orders up to length 3 of the four routines sharing the lazy basis on one instance vs fresh instances",
+        "Every (l,m) component is recovered separately on every grid configuration (1.4e4 comparisons quick), for rotated and off-origin grids; self-consistency of Cartesian, spherical and radial derivatives is checked against the same callable; the history clause is an exhaustive search over call orders.",
+        "Relies on angular exactness (C02). Derivatives are compared inside one spline interval; the centre itself is excluded from gradient checks (the spline-times-harmonic interpolant has a cusp there).",
+        "DESIGN.md 3/C09",
+    ),
 }
 
 NOT_YET = "check not built yet in this session (work in progress; see DESIGN.md section 8 for the order of work)"
